@@ -186,6 +186,38 @@ def exc_name(e):
 
 
 _SCHEMA = {}
+_CHECKED = {}
+
+
+def speed_up_jsonschema():
+    """jsonschema.validate() re-validates the (constant) bundled schema against its metaschema on every call (~80 ms);
+    memoise that step per schema content.  The verdict on the instance is computed as before."""
+    import jsonschema
+    if getattr(jsonschema.validators, "_c17_memo", False):
+        return
+    jsonschema.validators._c17_memo = True
+    for name in dir(jsonschema.validators):
+        cls = getattr(jsonschema.validators, name)
+        if isinstance(cls, type) and hasattr(cls, "check_schema") and hasattr(cls, "META_SCHEMA"):
+            orig = cls.check_schema.__func__ if hasattr(cls.check_schema, "__func__") else None
+            if orig is None:
+                continue
+
+            def memo(klass, schema, *a, _orig=orig, **k):
+                try:
+                    key = (klass.__name__, json.dumps(schema, sort_keys=True, default=repr))
+                except Exception:  # noqa: BLE001
+                    return _orig(klass, schema, *a, **k)
+                if key not in _CHECKED:
+                    try:
+                        _orig(klass, schema, *a, **k)
+                        _CHECKED[key] = None
+                    except Exception as e:  # noqa: BLE001
+                        _CHECKED[key] = e
+                if _CHECKED[key] is not None:
+                    raise _CHECKED[key]
+            cls.check_schema = classmethod(memo)
+
 
 
 def js_valid(doc):
@@ -530,8 +562,7 @@ def observe_doc(c, tmpdir):
         if quick:
             rng.shuffle(jstyles)
             rng.shuffle(ystyles)
-            jstyles, ystyles = sorted(jstyles[:2]), sorted(ystyles[:2] + ([0] if rng.random() < 0.5 else []))
-            ystyles = sorted(set(ystyles))
+            jstyles, ystyles = sorted(jstyles[:2]), sorted(ystyles[:2])
         for kind, idxs, styles in (("json", jstyles, JSON_STYLES), ("yaml", ystyles, YAML_STYLES)):
             for si in idxs:
                 try:
@@ -544,8 +575,8 @@ def observe_doc(c, tmpdir):
                     continue
                 cnt("render:" + kind)
                 texts.setdefault(kind, (si, text))
-                for (fn, ct, fmt) in _combos(kind, rng, 3 if quick else 6):
-                    for api in ("text", "bytes"):
+                for ci, (fn, ct, fmt) in enumerate(_combos(kind, rng, 2 if quick else 6)):
+                    for api in ((("text", "bytes")[ci % 2],) if quick else ("text", "bytes")):
                         obs["deliveries"] += 1
                         try:
                             if api == "text":
@@ -583,21 +614,28 @@ def observe_doc(c, tmpdir):
                 parsed.setdefault(label, got)
 
         for kind, (si, text) in texts.items():
-            exts = [".json"] if kind == "json" else [".yaml", ".yml"] + ([".YAML"] if rng.random() < 0.3 else [])
-            for ext in exts:
+            exts = [".json", ".JSON"] if kind == "json" else [".yaml", ".yml", ".YAML", ".Yml"]
+            pv = 0.3 if quick else 0.6
+            if quick:
+                rng.shuffle(exts)
+                file_exts, s3_exts = exts[:1], exts[1:2]
+            else:
+                file_exts = s3_exts = exts
+            for ext in file_exts:
                 path = os.path.join(tmpdir, "p%d%s" % (rng.randrange(10**6), ext))
                 with open(path, "w", encoding="utf-8") as f:
                     f.write(text)
                 deliver("FilePolicySource:%s" % ext, lambda p=path: FilePolicySource(p).load())
-                if rng.random() < 0.5 and jv in (True, False) and iv in (True, False):
+                if rng.random() < pv and jv in (True, False) and iv in (True, False):
                     deliver("FilePolicySource(validate_schema):%s" % ext,
                             lambda p=path: FilePolicySource(p, validate_schema=True).load(), want_accept=jv)
                 os.unlink(path)
+            for ext in s3_exts:
                 # S3: the key's extension decides (no hint, no content type)
                 body = text.encode("utf-8")
                 deliver("S3PolicySource:%s" % ext,
-                        lambda b=body, e=ext: S3PolicySource("s3://bucket/dir/pol" + e, client=FakeS3(b), validate_schema=False).load())
-                if rng.random() < 0.5 and jv in (True, False) and iv in (True, False):
+                        lambda b=body, e=ext: S3PolicySource("s3://bucket/dir/pol" + e, client=FakeS3(b, "application/json" if kind == "json" else "application/yaml"), validate_schema=False).load())
+                if rng.random() < pv and jv in (True, False) and iv in (True, False):
                     deliver("S3PolicySource(validate_schema):%s" % ext,
                             lambda b=body, e=ext: S3PolicySource("s3://bucket/dir/pol" + e, client=FakeS3(b)).load(), want_accept=jv)
             # HTTP
@@ -609,10 +647,13 @@ def observe_doc(c, tmpdir):
                             ("noct", None, "https://h/policy" + rng.choice([".yaml", ".yml"])),
                             ("bytes", "application/x-yaml", "https://h/policy.json"),
                             ("nojsonattr", "text/yaml", "https://h/p.json")]
+            if quick:
+                rng.shuffle(variants)
+                variants = variants[:2]
             for variant, ctype, url in variants:
                 with fake_module("requests", make_requests(variant, text, ctype)):
                     deliver("HTTPPolicySource:%s:%s" % (kind, variant), lambda u=url: HTTPPolicySource(u).load())
-                    if variant in ("json", "yaml") and rng.random() < 0.5 and jv in (True, False) and iv in (True, False):
+                    if rng.random() < pv and jv in (True, False) and iv in (True, False):
                         deliver("HTTPPolicySource(validate_schema):%s:%s" % (kind, variant),
                                 lambda u=url: HTTPPolicySource(u, validate_schema=True).load(), want_accept=jv)
 
@@ -677,9 +718,13 @@ def observe_doc(c, tmpdir):
                 for strict in (False, True):
                     plans.append((cmd, ps, strict))
         if quick:
-            # validate x policyset x one strict flavour, check x all, lint x strict only: 2 + 4 + 2 of the 12
-            plans = [p for p in plans if (p[0] == "check") or (p[0] == "validate" and p[2] == (rng.random() < 0.3))
-                     or (p[0] == "lint" and p[2])]
+            if kind == "yaml" and rng.random() < 0.6:
+                continue
+            # validate with and without --policyset, two of the four check flavours, one lint flavour
+            v = [p for p in plans if p[0] == "validate" and p[2] == (rng.random() < 0.3)]
+            ch = rng.sample([p for p in plans if p[0] == "check"], 2)
+            li = rng.sample([p for p in plans if p[0] == "lint"], 1)
+            plans = v + ch + li
         for cmd, ps, strict in plans:
             via = "stdin" if (kind == "json" and rng.random() < 0.35) else "file"
             argv = [cmd]
@@ -935,6 +980,7 @@ def judge_cli(chk, c, obs, m):
 # --------------------------------------------------------------------------------------------
 def _shard(cases):
     logging_off()
+    speed_up_jsonschema()
     tmpdir = tempfile.mkdtemp(prefix="c17_")
     out = []
     try:
@@ -1222,7 +1268,7 @@ def gen_docs(chk):
     rng = chk.rng
     quick = chk.tier == "quick"
     out = []
-    n = 360 if quick else 3600
+    n = 330 if quick else 1500
 
     def add(sub, doc, reqs):
         out.append({"fam": "doc", "sub": sub, "doc": doc, "reqs": reqs, "seed": rng.randrange(2**31), "quick": quick})
